@@ -802,13 +802,13 @@ GeneralizedTime_compare(const asn_TYPE_descriptor_t *td, const void *aptr,
             } else {
                 return 1;
             }
-        } else if(afrac_digits == 0) {
-            return -1;
-        } else if(bfrac_digits == 0) {
-            return 1;
         } else {
-            double afrac = (double)afrac_value / afrac_digits;
-            double bfrac = (double)bfrac_value / bfrac_digits;
+            /* Bring both fractions to the same number of digits. */
+            double afrac = (double)afrac_value;
+            double bfrac = (double)bfrac_value;
+            int d;
+            for(d = afrac_digits; d < bfrac_digits; d++) afrac *= 10;
+            for(d = bfrac_digits; d < afrac_digits; d++) bfrac *= 10;
             if(afrac < bfrac) {
                 return -1;
             } else if(afrac > bfrac) {
